@@ -7,6 +7,7 @@ use std::io::Read;
 
 mod c01;
 mod c12;
+mod c16;
 mod c17;
 mod c18;
 mod c19;
@@ -39,6 +40,9 @@ fn main() {
         "c17_remap" => c17::remap(&v),
         "c01_added_lines" => c01::added_lines(&v),
         "c12_profile" => c12::profile(&v),
+        "c16_tokenize" => c16::tokenize(&v),
+        "c16_lines" => c16::lines(&v),
+        "c16_update" => c16::update(&v),
         "c19_accepted" => c19::accepted(&v),
         "c19_totals" => c19::totals(&v),
         "c19_numstat" => c19::numstat(&v),
